@@ -25,12 +25,12 @@ abbrev Val := Nat
 
 inductive Side where
   | tx | rx
-  deriving DecidableEq, Repr, Inhabited
+  deriving DecidableEq, Repr, Inhabited, Hashable
 
 structure HName where
   side : Side
   idx : Nat
-  deriving DecidableEq, Repr, Inhabited
+  deriving DecidableEq, Repr, Inhabited, Hashable
 
 /-- implementation family (which Rust module implements the handle) -/
 inductive Fam where
@@ -76,11 +76,11 @@ structure Handle where
   name : HName
   closed : Bool
   isAsync : Bool
-  deriving DecidableEq, Repr, Inhabited
+  deriving DecidableEq, Repr, Inhabited, Hashable
 
 inductive OsState where
   | empty | sent | taken | closed
-  deriving DecidableEq, Repr, Inhabited
+  deriving DecidableEq, Repr, Inhabited, Hashable
 
 structure St where
   buf : List Val := []
